@@ -18,6 +18,7 @@ DECIDED = ("R1 dispatch: no checker -> all six piece generators without check re
            "no enemy rook/queen or bishop/queen attacks the king through rook_moves/bishop_moves of that occupancy and no enemy knight or other pawn attacks it; candidates are the mover's pawns "
            "on the capture rank and adjacent files, pinned or not; R6 the promotion flag is `source rank == the mover's seventh rank`.")
 DECIDED = DECIDED + ' R6 (numbered apart from the clause above) premise re-run here: the cached `checkers` / `pinned` sets the generator filters by are computed exactly, from scratch and incrementally (C03.R3, R5, R6).'
+DECIDED = DECIDED + ' R3 also: the king-step filter may be an explicit loop or `.filter(|d| board.is_legal_king_position(d)).collect()` (closure evaluated); the ray scan of is_legal_king_position may be a loop or `.any(closure)`; the castling (side, files, safe files) table is compared by value wherever it is written; the final emptiness tests are decided over the 8 emptiness combinations of the three attacker sets. R2: check_mask takes the king square or looks it up itself (own king of the side to move). R5: `x == 0` / `x != 0` tests normalised.'
 NOT_DECIDED = ("which squares actually come out on a given position: the meaning of the bitboard formulas on real boards is not decided statically (the lookups themselves are C08/C09); "
                "'each exactly once' relies on C10's entry list semantics")
 EXPLANATION = ("K4 path summaries with the generic-iteration abstraction: for each generator the iteration domain, the pushed entry and its guards are extracted as terms and compared, "
